@@ -116,6 +116,35 @@ fn main() {
             check("network2 keepalive", &keepalive::Message::KeepAlive(c), |a, b| format!("{a:?}") == format!("{b:?}"), &mut n);
             check("network2 keepalive", &keepalive::Message::ResponseKeepAlive(c), |a, b| format!("{a:?}") == format!("{b:?}"), &mut n); }
         check("network2 keepalive", &keepalive::Message::Done, |a, b| format!("{a:?}") == format!("{b:?}"), &mut n);
+
+        {   // pallas-network2: block-fetch, chain-sync, tx-submission, handshake messages
+            use pallas_network2::protocol::{blockfetch, chainsync, txsubmission, handshake};
+            let dbg = |a: &dyn std::fmt::Debug, b: &dyn std::fmt::Debug| format!("{a:?}") == format!("{b:?}");
+            for m in [blockfetch::Message::ClientDone, blockfetch::Message::StartBatch, blockfetch::Message::NoBlocks, blockfetch::Message::BatchDone] { check("network2 blockfetch", &m, |a, b| dbg(a, b), &mut n); }
+            for len in [0usize, 1, 23, 600] { check("network2 blockfetch", &blockfetch::Message::Block(vec![0xa5; len]), |a, b| dbg(a, b), &mut n); }
+            for p in points.iter().step_by(7) { for q in points.iter().step_by(11) { check("network2 blockfetch", &blockfetch::Message::RequestRange((p.clone(), q.clone())), |a, b| dbg(a, b), &mut n); } }
+            type CS = chainsync::Message<chainsync::HeaderContent>;
+            let tip = Tip(points[5].clone(), 77);
+            let hc = chainsync::HeaderContent { variant: 1, byron_prefix: None, cbor: vec![0x82, 0x01, 0x02] };
+            let hcb = chainsync::HeaderContent { variant: 0, byron_prefix: Some((1, 9)), cbor: vec![0x80] };
+            for m in [CS::RequestNext, CS::AwaitReply, CS::Done, CS::RollForward(hc.clone(), tip.clone()), CS::RollForward(hcb.clone(), tip.clone()), CS::RollBackward(points[3].clone(), tip.clone()),
+                      CS::IntersectFound(points[9].clone(), tip.clone()), CS::IntersectNotFound(tip.clone())] { check("network2 chainsync", &m, |a, b| dbg(a, b), &mut n); }
+            for l in [vec![], vec![points[0].clone()], vec![points[2].clone(), points[2].clone()], points.iter().step_by(6).cloned().collect::<Vec<_>>()] { check("network2 chainsync", &CS::FindIntersect(l), |a, b| dbg(a, b), &mut n); }
+            use txsubmission::{EraTxBody, EraTxId, Message as TS, TxIdAndSize};
+            let ids: Vec<EraTxId> = vec![EraTxId(0, vec![]), EraTxId(6, vec![0x5a; 32]), EraTxId(65535, vec![1; 300])];
+            let mut msgs = vec![TS::Init, TS::Done, TS::RequestTxIds(true, 0, 1), TS::RequestTxIds(false, 65535, 24), TS::ReplyTxIds(vec![]), TS::RequestTxs(vec![]), TS::ReplyTxs(vec![])];
+            for k in 1..=3 { msgs.push(TS::ReplyTxIds(ids.iter().take(k).map(|i| TxIdAndSize(i.clone(), 70000 * k as u32)).collect())); msgs.push(TS::RequestTxs(ids.iter().take(k).cloned().collect()));
+                             msgs.push(TS::ReplyTxs(ids.iter().take(k).map(|i| EraTxBody(i.0, i.1.clone())).collect())); }
+            for m in &msgs { check("network2 tx-submission", m, |a, b| dbg(a, b), &mut n); }
+            type H = handshake::Message<handshake::n2n::VersionData>;
+            let table = handshake::n2n::VersionTable::v7_and_above(764824073);
+            let same_table = |a: &H, b: &H| match (a, b) { (H::Propose(x), H::Propose(y)) | (H::QueryReply(x), H::QueryReply(y)) => format!("{:?}", { let mut v: Vec<_> = x.values.iter().collect(); v.sort_by_key(|e| *e.0); v }) == format!("{:?}", { let mut v: Vec<_> = y.values.iter().collect(); v.sort_by_key(|e| *e.0); v }), _ => dbg(a, b) };
+            check("network2 handshake", &H::Propose(table.clone()), same_table, &mut n);
+            check("network2 handshake", &H::QueryReply(table.clone()), same_table, &mut n);
+            for (v, d) in table.values.iter() { check("network2 handshake", &H::Accept(*v, d.clone()), same_table, &mut n); }
+            for r in [handshake::RefuseReason::VersionMismatch(vec![]), handshake::RefuseReason::VersionMismatch(vec![7, 13, 70000]), handshake::RefuseReason::HandshakeDecodeError(13, "bad".into()), handshake::RefuseReason::Refused(14, String::new())] {
+                check("network2 handshake", &H::Refuse(r), same_table, &mut n); }
+        }
     }
     {   // peer sharing (both stacks): addresses and messages
         use std::net::{Ipv4Addr, Ipv6Addr};
